@@ -2,6 +2,7 @@ package fakedb
 
 import (
 	"sort"
+	"strconv"
 	"strings"
 	"time"
 
@@ -564,7 +565,7 @@ func (c *conn) doShow(x *ast.ShowStmt) (*result, error) {
 	case ast.ShowVariables:
 		step := "1"
 		if s.autoStep > 1 {
-			step = fmt.Sprint(s.autoStep)
+			step = strconv.FormatInt(s.autoStep, 10)
 		}
 		vars := map[string]string{"auto_increment_increment": step, "auto_increment_offset": "1", "autocommit": "ON",
 			"version": s.version, "tx_isolation": "READ-COMMITTED", "transaction_isolation": "READ-COMMITTED", "lower_case_table_names": "1",
